@@ -290,6 +290,16 @@ def inherited_class_slots():
     inst = {c for c, (_, names, _, _) in classes.items() if any(names.get(m) for m in SLOT_MARKERS)}
     out = set()
     for rel, fn, ln0, ln1, attr, ln, shape in class_level_stores():
+        # a guard that looks into the class's OWN dictionary ('A' in cls.__dict__ / vars(cls)) never finds an inherited slot
+        own_dict = False
+        for f in [n for n in ast.walk(parse(rel)) if isinstance(n, ast.FunctionDef) and n.name == fn and n.lineno == ln0]:
+            for n in ast.walk(f):
+                if isinstance(n, ast.Compare) and len(n.ops) == 1 and isinstance(n.ops[0], (ast.In, ast.NotIn)) and isinstance(n.left, ast.Constant) and n.left.value == attr:
+                    c0 = n.comparators[0]
+                    if (isinstance(c0, ast.Attribute) and c0.attr == '__dict__') or (isinstance(c0, ast.Call) and isinstance(c0.func, ast.Name) and c0.func.id == 'vars'):
+                        own_dict = True
+        if own_dict:
+            continue
         owners = [c for c, (_, _, r, fns) in classes.items() if r == rel and fn in fns]
         if not owners:
             raise Fail('class-level store in %s.%s: no owning class found' % (rel, fn))
